@@ -6,6 +6,7 @@ Space: string pools built from
   * (thorough) every ordered triple,
   * strings of every length 0..300 of a 1-byte, a 2-byte and a 3-byte unit (crosses the 128-byte read chunk of the
     string reader at every phase), each also mixed with a leading unit of another width,
+  * one special unit behind an ASCII prefix of every length around the 128-byte chunk boundaries (120..131, 250..259, 378..387),
   * each pool written both with the string data in the normal place and as the LAST bytes of the file.
 Every string is used as a field name, a method name, a class-name part and a const-string / const-string/jumbo operand.
 Oracle: ref (this file): the pool the independent writer was given; everything compared as UTF-16 code-unit sequences.
@@ -64,6 +65,13 @@ def pools(ctx):
             for n in range(lo, min(lo + 10, 301)):
                 ss.append(mk(([lead] if lead is not None else []) + [unit] * n))
             out.append(("%s:%d" % (name, lo), ss))
+    # ONE special unit (NUL / lone or paired surrogate / 2-byte / 3-byte unit) at every byte phase around the reader's
+    # 128-byte chunk boundaries (prefix of n ASCII bytes, n around 127, 255, 383), as the only non-ASCII content
+    specials = [[0x0000], [0xd800], [0xdc00], [0xdfff], [0xd800, 0xdc00], [0x00e9], [0x4e2d]]
+    ns = list(range(120, 132)) + list(range(250, 260)) + list(range(378, 388))
+    for si, sp in enumerate(specials):
+        for i in range(0, len(ns), 8):
+            out.append(("boundary%d:%d" % (si, ns[i]), [mk([0x61] * n + sp + [0x62] * 2) for n in ns[i:i + 8]]))
     return out
 
 
